@@ -310,7 +310,15 @@ impl<'a> QGen<'a> {
     fn name_sel(&self, rng: &mut Rng) -> String {
         let n = self.name(rng);
         if self.safe_quotes {
-            if n.contains('\'') || (!n.contains('"') && rng.chance(1, 4)) {
+            // one time in three a quote inside the name is written as an escape (\' or \"); the names
+            // carry no backslash, so Value's and a faithful get still see the same text
+            if (n.contains('\'') || n.contains('"')) && rng.chance(1, 3) {
+                if n.contains('\'') {
+                    quote_single(&n)
+                } else {
+                    quote_double(&n)
+                }
+            } else if n.contains('\'') || (!n.contains('"') && rng.chance(1, 4)) {
                 quote_double(&n)
             } else {
                 quote_single(&n)
@@ -897,4 +905,32 @@ mod shrink_tests {
         assert!(c.contains(&"$.a[?@.b==1&&(@.c)]['x','y']..z".to_string()), "{:?}", c);
         assert!(c.contains(&"$.a[?@.b==1&&(@.c||$.d)]['x','y']".to_string()), "{:?}", c);
     }
+}
+
+/// A document content is JSON text, or `#deep:<depth>:<branches>`: a hand-built value nested deeper
+/// than serde_json's parser accepts (branches b0.. each a chain of "a" members ending in {"c": n}).
+pub fn content_value(text: &str) -> Value {
+    if let Some(rest) = text.strip_prefix("#deep:") {
+        let mut it = rest.split(':');
+        let depth: usize = it.next().and_then(|x| x.parse().ok()).unwrap_or(130);
+        let branches: usize = it.next().and_then(|x| x.parse().ok()).unwrap_or(2);
+        let mut root = Map::new();
+        for b in 0..branches {
+            let mut v = serde_json::json!({ "c": b as i64 });
+            for _ in 0..depth {
+                let mut m = Map::new();
+                m.insert("a".to_string(), v);
+                v = Value::Object(m);
+            }
+            root.insert(format!("b{}", b), v);
+        }
+        root.insert("c".to_string(), Value::from(-1));
+        return Value::Object(root);
+    }
+    serde_json::from_str(text).expect("content json")
+}
+
+/// The text a content is compared with at the end of a run (its own serialisation).
+pub fn content_text(text: &str) -> String {
+    content_value(text).to_string()
 }
